@@ -64,6 +64,10 @@ def gateways_for(transport, backend="thread", gid="g"):
         return ["popen//id=m", f"popen//via=m//id={gid}{em}"], 1
     if transport == "proxy-bare":
         return ["popen//python=/sim/bare-python3 -S -E//id=m", f"popen//via=m//id={gid}{em}"], 1
+    if transport == "socket-bare":
+        return ["popen//python=/sim/bare-python3 -S -E//id=m", f"socket//installvia=m//id={gid}{em}"], 1
+    if transport == "ssh-config":
+        return [f"ssh=-p 2222 user@simhost//ssh_config=/sim/ssh_config//python=/opt/py/bin/python3//id={gid}{em}"], 0
     raise ValueError(transport)
 
 
@@ -112,6 +116,7 @@ class Hist:
         self.sub = {}
         self.cb = {}
         self.done = {}
+        self.notes = []
         for seq, aid, oi, ph, data in self.H:
             if ph == "inv":
                 self.inv[(aid, oi)] = (seq, data)
@@ -123,6 +128,8 @@ class Hist:
                 self.cb.setdefault((aid, oi), []).append((seq, data))
             elif ph == "done":
                 self.done[aid] = seq
+            elif ph == "note":
+                self.notes.append((seq, data))
 
     def ops(self, kinds=None):
         """yield (aid, oi, op, inv_seq, ret_seq_or_None, result_or_None) in program order per actor"""
